@@ -326,6 +326,6 @@ pub fn run(env: &Env) -> i32 {
         "generated schema (input objects referring to input objects, enums, custom scalars with Single/SendReceive/Separate/directive TypeScript mappings) and an accepted operation with 1-5 variable definitions over all input kinds and wrappers (T, T!, [T], [T!]!, [[T]], [[T!]]!), defaults; config: allowUndefinedAsOptionalInput on/off. Oracle over abstract values: (a) sampled inhabitants of the emitted <Op>Variables type (read with the emitted __OperationInput namespace) must be coercible per the spec's CoerceVariableValues; (b) 20 explicit coercible assignments per case must be members; (c) near-misses (null, omission, output-side scalar atoms) admitted => coercible, and omission of a nullable variable is admitted iff the option is on. Non-trivial: nested list / list of non-null / nested input object / scalar whose input and output types differ.",
     );
     rep.assume("list variables are supplied as arrays (the emitted type is an array type); extra object keys are outside the value domain");
-    rep.campaign("variables", env.cases(3_000, 60_000), (300, 1400), case_fn);
+    rep.campaign("variables", env.cases(15_000, 150_000), (300, 1400), case_fn);
     rep.finish()
 }
